@@ -254,6 +254,19 @@ def emitted_header(ctx) -> Tuple[FuncInfo, List[Seg], ast.AST]:
             flat(e.right)
         elif isinstance(e, ast.Name) and single_assign(ser.node, e.id) is not None:
             flat(single_assign(ser.node, e.id))
+        elif isinstance(e, ast.Call) and call_attr(e) != "pack":
+            # a one-expression helper of the transport class that builds (part of) the header: its result with
+            # the arguments substituted for the parameters
+            from .c05 import clone, method_params, resolve_method_call
+            h = resolve_method_call(repo, ser, e)
+            hrets = [r for r in walk(h.node) if isinstance(r, ast.Return) and r.value is not None] if h is not None else []
+            if len(hrets) != 1:
+                terms.append(e)
+                return
+            params = method_params(h)
+            amap = {params[i]: a for i, a in enumerate(e.args) if i < len(params)}
+            amap.update({k.arg: k.value for k in e.keywords if k.arg})
+            flat(clone(hrets[0].value, lambda n: clone(amap[n.id]) if isinstance(n, ast.Name) and n.id in amap else None))
         else:
             terms.append(e)
     flat(rets[0].value)
@@ -279,6 +292,20 @@ def emitted_header(ctx) -> Tuple[FuncInfo, List[Seg], ast.AST]:
             args = t.args
         if not isinstance(fmt, str):
             raise AnalysisError(f"SOCKS5UDPTransport.serialize: format of `{norm(t)}` is not a literal")
+        # `*<class-level tuple>` among the values stands for its elements
+        flat_args = []
+        for a in args:
+            if isinstance(a, ast.Starred):
+                sp_ = ap(a.value) or ""
+                node = repo.class_attr(ser.cls, sp_.split(".", 1)[1]) if sp_.startswith(("cls.", "self.")) and ser.cls else a.value
+                if isinstance(node, ast.Name):
+                    node = repo.module_assign(ser.module, node.id) or node
+                if not isinstance(node, (ast.Tuple, ast.List)):
+                    raise AnalysisError(f"SOCKS5UDPTransport.serialize: cannot expand `{norm(a)}`")
+                flat_args.extend(node.elts)
+            else:
+                flat_args.append(a)
+        args = flat_args
         order, fields = fmt_fields(fmt)
         ctx.ob("C06.R1", f"emit: {norm(t.func)} packs one value per field of {fmt!r}", len(fields) == len(args),
                ctx.w(ser, t), f"{len(args)} values for {len(fields)} fields")
@@ -392,15 +419,36 @@ def r2(ctx):
     dr = repo.fn("UDPProxyProtocol.datagram_received")
     dparam, sparam = msg_param(dr, 0), msg_param(dr, 1)
     cfg = CFG(dr.node)
+    from .c05 import method_params, resolve_method_call
     pkts = [c for c in calls(dr.node) if call_attr(c) == "UDPPacket"]
+    # packets may also be built by a helper of the protocol class that is handed (data, source) and returns the packet
+    sites = [(dr, c, dparam, sparam, None) for c in pkts]
+    builder_calls = []
+    for hc in calls(dr.node, into_defs=False):
+        h = resolve_method_call(repo, dr, hc)
+        if h is None or h == dr:
+            continue
+        built = [c for c in calls(h.node) if call_attr(c) == "UDPPacket"]
+        if not built:
+            continue
+        hp_ = method_params(h)
+        amap = {hp_[i]: ap(a_) for i, a_ in enumerate(hc.args) if i < len(hp_)}
+        amap.update({k.arg: ap(k.value) for k in hc.keywords if k.arg})
+        inv = {v: k for k, v in amap.items() if v}
+        if dparam not in inv or sparam not in inv:
+            raise AnalysisError(f"{h.qual}: builds a UDPPacket without being handed the datagram and its source")
+        builder_calls.append(hc)
+        for c in built:
+            sites.append((h, c, inv[dparam], inv[sparam], hc))
     n_out = n_in = 0
-    for c in pkts:
+    for fn, c, dp, sp, outer in sites:
+        fcfg = cfg if fn == dr else CFG(fn.node)
         a = ctor_args(repo, c, "UDPPacket", BTRANS)
         d = ap(a.get("direction")) or ""
-        where = ctx.w(dr, c)
+        where = ctx.w(fn, c)
         if d.endswith("Direction.OUT"):
             n_out += 1
-            ctx.ob("C06.R2", "datagram_received[OUT]: src_addr is the datagram's source", ap(a.get("src_addr")) == sparam, where)
+            ctx.ob("C06.R2", "datagram_received[OUT]: src_addr is the datagram's source", ap(a.get("src_addr")) == sp, where)
             dst, dat = a.get("dst_addr"), a.get("data")
             # (dst, data) come from the parsed SOCKS datagram
             pfn, pnames = socks_parser(repo)
@@ -409,11 +457,11 @@ def r2(ctx):
                 rec_fields = rec_fields or namedtuple_fields(repo, ap(r_.value.func), pfn.module)
 
             def is_parse_call(v):
-                return isinstance(v, ast.Call) and call_attr(v) in pnames and v.args and ap(v.args[0]) == dparam
-            parsed_names = {st_.path for st_ in stores(dr.node, into_defs=False) if st_.kind == "assign" and "." not in st_.path
+                return isinstance(v, ast.Call) and call_attr(v) in pnames and v.args and ap(v.args[0]) == dp
+            parsed_names = {st_.path for st_ in stores(fn.node, into_defs=False) if st_.kind == "assign" and "." not in st_.path
                             and is_parse_call(st_.value) and isinstance(st_.target, ast.Name)}
             unpacked: Dict[str, int] = {}
-            for st in walk(dr.node):
+            for st in walk(fn.node):
                 if isinstance(st, ast.Assign) and isinstance(st.targets[0], ast.Tuple):
                     v = st.value
                     if is_parse_call(v) or (isinstance(v, ast.Name) and v.id in parsed_names):
@@ -425,7 +473,7 @@ def r2(ctx):
                 if isinstance(x, ast.Name):
                     if x.id in unpacked:
                         return unpacked[x.id]
-                    v_ = single_assign(dr.node, x.id)
+                    v_ = single_assign(fn.node, x.id)
                     return elem_index(v_, depth + 1) if v_ is not None and depth < 3 else None
                 if isinstance(x, ast.Attribute) and isinstance(x.value, ast.Name) and x.value.id in parsed_names \
                         and rec_fields and x.attr in rec_fields:
@@ -440,56 +488,60 @@ def r2(ctx):
                    okp, where, f"dst={norm(dst) if dst is not None else None} data={norm(dat) if dat is not None else None}")
             if parsed_name:
                 ctx.ob("C06.R2", "datagram_received[OUT]: only a successfully parsed datagram is forwarded",
-                       path_fact(c, parsed_name, dr.node) is True, where,
+                       path_fact(c, parsed_name, fn.node) is True, where,
                        "packet built although the SOCKS header was rejected")
-            fromclient = equal_fact(c, {f"{sparam}[0]", "self.socks_client_addr[0]"}, dr.node, norm) is True
+            fromclient = equal_fact(c, {f"{sp}[0]", "self.socks_client_addr[0]"}, fn.node, norm) is True or \
+                (outer is not None and equal_fact(outer, {f"{sparam}[0]", "self.socks_client_addr[0]"}, dr.node, norm) is True)
             ctx.ob("C06.R2", "datagram_received[OUT]: only datagrams from the SOCKS client's host are treated as outbound",
                    fromclient, where, "direction inference no longer tied to the association's client address")
             # the learning store (direct, or inside a self.-helper given (remote, source)) lies on every path that
             # builds this packet and hands it on
             learn_nodes = []
-            for s_ in stores(dr.node):
+            for s_ in stores(fn.node):
                 if s_.kind == "setitem" and s_.path == "self.far_to_near_map" and ap(s_.target.slice) == ap(dst) \
-                        and ap(s_.value) == sparam:
-                    learn_nodes.extend(cfg.nodes_for(s_.node))
-            from .c05 import method_params, resolve_method_call
-            for hc in calls(dr.node, into_defs=False):
-                callee = resolve_method_call(repo, dr, hc)
-                if callee is None or callee == dr:
+                        and ap(s_.value) == sp:
+                    learn_nodes.extend(fcfg.nodes_for(s_.node))
+            for hc in calls(fn.node, into_defs=False):
+                callee = resolve_method_call(repo, fn, hc)
+                if callee is None or callee == fn:
                     continue
                 params = method_params(callee)
                 argmap = {params[i]: ap(a) for i, a in enumerate(hc.args) if i < len(params)}
                 argmap.update({k.arg: ap(k.value) for k in hc.keywords if k.arg})
                 for s_ in stores(callee.node):
                     if s_.kind == "setitem" and s_.path == "self.far_to_near_map" and \
-                            argmap.get(ap(s_.target.slice)) == ap(dst) and argmap.get(ap(s_.value)) == sparam:
-                        learn_nodes.extend(cfg_nodes(cfg, hc))
-            cn = cfg_nodes(cfg, c)
-            before = cfg.reachable([cfg.entry], avoid=lambda n: n in learn_nodes)
-            after = cfg.reachable(cn, avoid=lambda n: n in learn_nodes)
-            handle_nodes = [n for h in find_calls(dr.node, "handle_proxied_packet", into_defs=False) for n in cfg_nodes(cfg, h)]
+                            argmap.get(ap(s_.target.slice)) == ap(dst) and argmap.get(ap(s_.value)) == sp:
+                        learn_nodes.extend(cfg_nodes(fcfg, hc))
+            cn = cfg_nodes(fcfg, c)
+            before = fcfg.reachable([fcfg.entry], avoid=lambda n: n in learn_nodes)
+            after = fcfg.reachable(cn, avoid=lambda n: n in learn_nodes)
+            if fn == dr:
+                handle_nodes = [n for h in find_calls(fn.node, "handle_proxied_packet", into_defs=False) for n in cfg_nodes(fcfg, h)]
+            else:   # the packet leaves the helper through its returns
+                handle_nodes = [n for r_ in walk(fn.node) if isinstance(r_, ast.Return) and r_.value is not None
+                                and not (isinstance(r_.value, ast.Constant) and r_.value.value is None) for n in fcfg.nodes_for(r_)]
             okl = bool(learn_nodes) and not (any(n in before for n in cn) and any(n in after for n in handle_nodes))
             ctx.ob("C06.R2", "datagram_received[OUT]: far_to_near_map[remote] = source is recorded with the packet", okl, where,
                    "replies from that simulator cannot be routed back to this viewer")
         elif d.endswith("Direction.IN"):
             n_in += 1
-            ctx.ob("C06.R2", "datagram_received[IN]: src_addr is the datagram's source", ap(a.get("src_addr")) == sparam, where)
-            ctx.ob("C06.R2", "datagram_received[IN]: data is the raw datagram", ap(a.get("data")) == dparam, where)
+            ctx.ob("C06.R2", "datagram_received[IN]: src_addr is the datagram's source", ap(a.get("src_addr")) == sp, where)
+            ctx.ob("C06.R2", "datagram_received[IN]: data is the raw datagram", ap(a.get("data")) == dp, where)
             dst = a.get("dst_addr")
-            v = single_assign(dr.node, dst.id) if isinstance(dst, ast.Name) else None
-            okm = isinstance(v, ast.Call) and ap(v.func) == "self.far_to_near_map.get" and v.args and ap(v.args[0]) == sparam
+            v = single_assign(fn.node, dst.id) if isinstance(dst, ast.Name) else None
+            okm = isinstance(v, ast.Call) and ap(v.func) == "self.far_to_near_map.get" and v.args and ap(v.args[0]) == sp
             ctx.ob("C06.R2", "datagram_received[IN]: dst_addr is far_to_near_map[source]", bool(okm), where,
                    f"dst_addr is {norm(dst) if dst is not None else None}")
             if isinstance(dst, ast.Name):
                 ctx.ob("C06.R2", "datagram_received[IN]: datagrams from unknown hosts are discarded",
-                       path_fact(c, dst.id, dr.node) is True, where, "packet built without a known near address")
+                       path_fact(c, dst.id, fn.node) is True, where, "packet built without a known near address")
         else:
             raise AnalysisError(f"datagram_received: UDPPacket with unknown direction {d!r}")
     ctx.floor("C06.R2", "OUT packet constructions", n_out, 1)
     ctx.floor("C06.R2", "IN packet constructions", n_in, 1)
     hps = find_calls(dr.node, "handle_proxied_packet", into_defs=False)
     ctx.ob("C06.R2", "datagram_received hands the packet to handle_proxied_packet", len(hps) >= 1, dr.where)
-    pk_nodes = [n for c in pkts for n in cfg_nodes(cfg, c)]
+    pk_nodes = [n for c in pkts + builder_calls for n in cfg_nodes(cfg, c)]
     reach = cfg.reachable([cfg.entry], avoid=lambda n: n in pk_nodes)
     for h in hps:
         ctx.ob("C06.R2", "datagram_received: handle_proxied_packet only ever sees a packet built above",
@@ -498,7 +550,35 @@ def r2(ctx):
         arg = h.args[0] if h.args else None
         vals = [s.value for s in stores(dr.node) if isinstance(arg, ast.Name) and s.path == arg.id and s.kind == "assign"]
         ctx.ob("C06.R2", "datagram_received: the handled packet is the constructed one",
-               bool(vals) and all(any(v is c for c in pkts) for v in vals), ctx.w(dr, h))
+               bool(vals) and all(any(v is c for c in pkts + builder_calls) for v in vals), ctx.w(dr, h))
+        # a builder helper may answer None (rejected datagram): that must never reach the handler
+        if builder_calls and isinstance(arg, ast.Name):
+            class Nullable(Explorer):
+                bad = False
+
+                def on_stmt(self_, s_, st_):
+                    if isinstance(s_, ast.Assign) and len(s_.targets) == 1 and ap(s_.targets[0]) == arg.id:
+                        self_.simple(s_, st_)
+                        if any(s_.value is bc for bc in builder_calls):
+                            outs_ = []
+                            for isnone in (True, False):
+                                s2 = st_.copy()
+                                assume(ast.Compare(left=ast.Name(id=arg.id, ctx=ast.Load()), ops=[ast.Is()],
+                                                   comparators=[ast.Constant(value=None)]), isnone, s2)
+                                if not isnone:
+                                    assume(ast.Name(id=arg.id, ctx=ast.Load()), True, s2)
+                                outs_.append(("fall", None, s2))
+                            return outs_
+                        assume(ast.Name(id=arg.id, ctx=ast.Load()), True, st_)
+                        return [("fall", None, st_)]
+                    if any(x is h for x in ast.walk(s_)) and not isinstance(s_, (ast.If, ast.For, ast.While, ast.Try, ast.With)):
+                        if tv(ast.Name(id=arg.id, ctx=ast.Load()), st_) is not True:
+                            self_.bad = True
+                    return None
+            nx = Nullable()
+            nx.explore(dr.node.body, St())
+            ctx.ob("C06.R2", "datagram_received: a datagram the packet builder rejected (None) never reaches the handler",
+                   not nx.bad, ctx.w(dr, h), "handle_proxied_packet can be called with None")
     # far_to_near_map ownership
     for f, st in writers_of(repo, "far_to_near_map"):
         if f.module.rel == "hippolyzer/lib/proxy/test_utils.py":
@@ -601,7 +681,13 @@ def r2(ctx):
         a = ctor_args(repo, c, "ProxiedCircuit")
         ok = ap(a.get("near_host")) == ocp[0] and ap(a.get("far_host")) == ocp[1] and ap(a.get("transport")) == ocp[2]
         ctx.ob("C06.R2", "Session.open_circuit builds the circuit with (near_addr, circuit_addr, transport)", ok, ctx.w(oc, c))
-    # region lookup keyed by the far address
+    check_region_lookup(ctx, "C06.R2")
+
+
+def check_region_lookup(ctx, rule: str):
+    """region_by_circuit_addr (shared by proxy and client) answers a region only under the fact that its
+    circuit_addr equals the argument - also on a fast path / cache in front of the scan."""
+    repo = ctx.repo
     rb = repo.fn("BaseClientSession.region_by_circuit_addr", STATE)
     rparam = msg_param(rb)
     nret = 0
@@ -611,9 +697,9 @@ def r2(ctx):
         nret += 1
         anchor, v, _ = selected_element(rb, r)
         ok = equal_fact(anchor, {f"{v}.circuit_addr", rparam}, rb.node, ap) is True
-        ctx.ob("C06.R2", "region_by_circuit_addr returns a region only when its circuit_addr equals the argument", ok, ctx.w(rb, r),
+        ctx.ob(rule, "region_by_circuit_addr returns a region only when its circuit_addr equals the argument", ok, ctx.w(rb, r),
                "a datagram could be attributed to another simulator's region")
-    ctx.floor("C06.R2", "region_by_circuit_addr region returns", nret, 1)
+    ctx.floor(rule, "region_by_circuit_addr region returns", nret, 1)
 
 
 def r2_identity(ctx):
@@ -635,8 +721,10 @@ def selected_element(fn: FuncInfo, r: ast.Return) -> Tuple[ast.AST, Optional[str
     `x = next((c for c in xs if <filters>), None)` is described by the generator element under its filters."""
     val = r.value
     outer = ap(val)
-    if isinstance(val, ast.Name) and single_assign(fn.node, val.id) is not None:
-        val = single_assign(fn.node, val.id)
+    if isinstance(val, ast.Name):
+        v0 = single_assign(fn.node, val.id)
+        if isinstance(v0, ast.Call) and ap(v0.func) == "next":
+            val = v0
     if isinstance(val, ast.Call) and ap(val.func) == "next" and val.args:
         gen = val.args[0]
         if isinstance(gen, ast.Name) and single_assign(fn.node, gen.id) is not None:
@@ -673,20 +761,33 @@ EFFECT_CALLS = {"collect_acks", "handle_lludp_message", "handle_region_changed",
                 "track_region_objects", "load_cache", "log_lludp_message"}
 
 
-def effects_of(hp: FuncInfo) -> List[Tuple[ast.AST, str]]:
-    out = []
+def effects_of(hp: FuncInfo, repo=None) -> List[Tuple[ast.AST, str]]:
+    """(node inside hp, description) of everything that touches session / region state or forwards: in hp itself,
+    and - anchored at the call - in stage helpers of the protocol class that are handed the region."""
+    from .c05 import method_params, resolve_method_call
     rvar = lookup_var(hp, "region_by_circuit_addr")
-    for c in calls(hp.node, into_defs=False):
-        a, p = call_attr(c), ap(c.func) or ""
-        if a in EFFECT_CALLS or (a == "handle" and p.endswith("message_handler.handle")) or \
-                (a in ("send", "send_reliable") and p.endswith("circuit." + a)):
-            out.append((c, norm(c)))
-    for st in stores(hp.node, into_defs=False):
-        if st.path.startswith((rvar + ".", "self.session.")) and st.kind in ("assign", "augassign", "setitem", "mutcall",
-                                                                           "delitem", "del", "augsetitem"):
-            if st.kind == "mutcall":
-                continue  # mutating calls on session/region objects are listed by name above
-            out.append((st.node, f"store {st.path}"))
+
+    def direct(fn, rname):
+        res = []
+        for c in calls(fn.node, into_defs=False):
+            a, p = call_attr(c), ap(c.func) or ""
+            if a in EFFECT_CALLS or (a == "handle" and p.endswith("message_handler.handle")) or \
+                    (a in ("send", "send_reliable") and p.endswith("circuit." + a)):
+                res.append((c, norm(c)))
+        for st in stores(fn.node, into_defs=False):
+            pre = tuple(x for x in ((rname + ".") if rname else None, "self.session.") if x)
+            if st.path.startswith(pre) and st.kind in ("assign", "augassign", "setitem", "delitem", "del", "augsetitem"):
+                res.append((st.node, f"store {st.path}"))
+        return res
+    out = direct(hp, rvar)
+    if repo is not None:
+        for hc in calls(hp.node, into_defs=False):
+            h = resolve_method_call(repo, hp, hc)
+            if h is None or h == hp:
+                continue
+            params = method_params(h)
+            rname = next((params[i] for i, a_ in enumerate(hc.args) if i < len(params) and ap(a_) == rvar), None)
+            out.extend((hc, f"{h.name}: {d}") for _, d in direct(h, rname))
     return out
 
 
@@ -698,7 +799,7 @@ def r3(ctx):
     hp = repo.fn("InterceptingLLUDPProxyProtocol.handle_proxied_packet")
     pk = msg_param(hp)
     cfg = CFG(hp.node)
-    effs = effects_of(hp)
+    effs = effects_of(hp, repo)
     ctx.floor("C06.R3", "effect sites in handle_proxied_packet", len(effs), 8)
 
     # ---- ban check
@@ -789,7 +890,7 @@ def r3(ctx):
             nderef += 1
             ctx.ob("C06.R3", f"handle_proxied_packet: use of region.{n.attr} is dominated by the region check",
                    path_fact(n, rvar, hp.node) is True, ctx.w(hp, n), "region may be None here")
-    ctx.floor("C06.R3", "region dereferences", nderef, 5)
+    ctx.floor("C06.R3", "region dereferences", nderef, 2)
 
     # ---- claim / open only for outgoing UseCircuitCode (self.-helpers of the protocol class are followed)
     for nm in ("claim_session", "open_circuit"):
@@ -797,9 +898,10 @@ def r3(ctx):
         ctx.floor("C06.R3", f"{nm} calls", len(chains), 1)
         for chain in chains:
             fi, c, _ = chain[-1]
-            okn = any(name_fact(n, "UseCircuitCode", f.node) is True for f, n, _ in chain)
-            oko = any(names.get(pk) and (path_fact(n, f"{names[pk]}.outgoing", f.node) is True or
-                                         path_fact(n, f"{names[pk]}.incoming", f.node) is False) for f, n, names in chain)
+            okn = any(name_fact(n, "UseCircuitCode", f.node, xf=(repo, f)) is True for f, n, _ in chain)
+            oko = any(names.get(pk) and (path_fact(n, f"{names[pk]}.outgoing", f.node, xf=(repo, f)) is True or
+                                         path_fact(n, f"{names[pk]}.incoming", f.node, xf=(repo, f)) is False)
+                      for f, n, names in chain)
             ctx.ob("C06.R3", f"handle_proxied_packet: {nm} only for an outgoing UseCircuitCode", okn and oko, ctx.w(fi, c),
                    f"name==UseCircuitCode known: {okn}, outgoing known: {oko}")
             if nm == "claim_session":
@@ -1083,6 +1185,27 @@ def r4(ctx):
             nt = is_none_test(e)
             if nt and ((not nt[1] and pol) or (nt[1] and not pol)):
                 continue
+            # a compound validity verdict (`not self.session and not self._claim_session(..)` known false): every
+            # leaf is the session or a helper of the protocol class that claims the session / opens the circuit
+            if isinstance(e, (ast.BoolOp, ast.UnaryOp)):
+                def leaves_(x):
+                    if isinstance(x, ast.UnaryOp) and isinstance(x.op, ast.Not):
+                        return leaves_(x.operand)
+                    if isinstance(x, ast.BoolOp):
+                        return [y for v in x.values for y in leaves_(v)]
+                    return [x]
+
+                def validity_leaf(x):
+                    if ap(x) == "self.session":
+                        return True
+                    if isinstance(x, ast.Call):
+                        from .c05 import resolve_method_call
+                        h_ = resolve_method_call(repo, fn, x)
+                        return h_ is not None and any(call_attr(c_) in ("claim_session", "open_circuit")
+                                                      for c_ in calls(h_.node, into_defs=False))
+                    return False
+                if all(validity_leaf(x) for x in leaves_(e)):
+                    continue
             extra.append(("" if pol else "not ") + norm(e))
         ctx.ob("C06.R4", f"{key} happens on the whole no-addon path", not extra, ctx.w(fn, ic),
                f"forwarding additionally depends on {extra}: some valid datagrams are not delivered")
@@ -1104,6 +1227,19 @@ def r4(ctx):
                contained, ctx.w(hp, t),
                f"the handlers {[norm(h.type) if h.type is not None else 'bare' for h in t.handlers]} let other "
                f"exceptions escape handle_proxied_packet before the forward: the datagram is lost")
+    from .c05 import resolve_method_call as _rmc
+    for hc in calls(hp.node, into_defs=False):
+        h_ = _rmc(repo, hp, hc)
+        if h_ is None or h_ == hp or not any(n_ in cfg.reachable(cfg_nodes(cfg, hc)) for n_ in site_nodes):
+            continue
+        for t in [x for x in walk(h_.node) if isinstance(x, ast.Try) and x.handlers]:
+            ntry += 1
+            contained = any(handler_catches_all(h) and handler_reraises(h) != "always" for h in t.handlers)
+            what = norm(t.body[0]) if t.body else "?"
+            ctx.ob("C06.R4", f"handle_proxied_packet: failure of `{what}` cannot stop the datagram from being forwarded",
+                   contained, ctx.w(h_, t),
+                   f"the handlers {[norm(h.type) if h.type is not None else 'bare' for h in t.handlers]} let other "
+                   f"exceptions escape handle_proxied_packet before the forward: the datagram is lost")
     ctx.stats["C06.R4.guarded side work"] = ntry
     # ownership of the raw transport
     base = repo.fn("UDPProxyProtocol.handle_proxied_packet", SOCKS)
